@@ -33,6 +33,7 @@ type c1rearr struct {
 	kinds    map[string]bool // which kinds may be applied
 	applied  map[string]int
 	hasMarks bool // the program contains a default mark somewhere
+	structDisj bool // the program contains a disjunction with a non-scalar alternative
 	p        int  // probability (percent) of applying a local rewrite at an opportunity
 }
 
@@ -115,6 +116,41 @@ func c1closedLiteral(e ast.Node) bool {
 	return ok && size <= 40
 }
 
+// c1scalarAlt: an alternative of a disjunction that cannot be (or contain) a struct: literals,
+// predeclared types, bounds, and disjunctions/conjunctions of those.
+func c1scalarAlt(e ast.Expr) bool {
+	switch n := e.(type) {
+	case *ast.BasicLit, *ast.BottomLit:
+		return true
+	case *ast.Ident:
+		return c1predecl[n.Name]
+	case *ast.UnaryExpr:
+		return c1scalarAlt(n.X)
+	case *ast.ParenExpr:
+		return c1scalarAlt(n.X)
+	case *ast.BinaryExpr:
+		return c1scalarAlt(n.X) && c1scalarAlt(n.Y)
+	}
+	return false
+}
+
+// c1hasStructDisj: some disjunction has an alternative that may be a struct (a struct or
+// list literal, a reference, a call). `x & x` is then NOT the identity in CUE once the result
+// is closed by a definition: (s1|s2)&(s1|s2) = s1 | s1&s2 | s2 and the evaluator does not
+// drop the subsumed s1&s2, which closing turns into a third, different alternative.
+func c1hasStructDisj(n ast.Node) bool {
+	found := false
+	ast.Walk(n, func(n ast.Node) bool {
+		if b, ok := n.(*ast.BinaryExpr); ok && b.Op == token.OR {
+			if !c1scalarAlt(b.X) || !c1scalarAlt(b.Y) {
+				found = true
+			}
+		}
+		return !found
+	}, nil)
+	return found
+}
+
 func c1size(e ast.Node) int {
 	n := 0
 	ast.Walk(e, func(ast.Node) bool { n++; return true }, nil)
@@ -152,7 +188,12 @@ func c1unparen(e ast.Expr) ast.Expr {
 func (x *c1rearr) conj(e ast.Expr) ast.Expr {
 	e = x.expr(e)
 	if c1size(e) <= 60 {
-		if (!x.hasMarks || c1closedLiteral(e)) && x.kinds["dup"] && x.r.Intn(100) < x.p/3 {
+		okDup := !x.hasMarks && !x.structDisj
+		if !okDup && c1closedLiteral(e) {
+			// closed literal: fine unless it holds a struct disjunction itself
+			okDup = !c1hasStructDisj(e)
+		}
+		if okDup && x.kinds["dup"] && x.r.Intn(100) < x.p/3 {
 			x.applied["dup"]++
 			e = c1and(e, e)
 		}
@@ -564,6 +605,7 @@ func c1Rearrange(src string, r *Rng, kinds map[string]bool, p int) (texts []stri
 	}
 	x := &c1rearr{r: r, kinds: kinds, applied: map[string]int{}, p: p}
 	x.hasMarks = c1hasMark(f)
+	x.structDisj = c1hasStructDisj(f)
 	f.Decls = x.decls(f.Decls, true)
 	if kinds["files"] && r.Intn(100) < 35 {
 		if fs := x.partition(f, 2+r.Intn(2)); fs != nil {
